@@ -77,18 +77,6 @@ theorem request_context_accurate (s : Schema) (doc : Document) (opName : String)
         exact ⟨rfl, rfl, rfl, op, nm, varDefs, dirs, loc, hsel, hroot, hv⟩
   · cases h
 
-theorem eq_of_nodup_map_path {log : List LogEntry} (hn : (log.map (·.path)).Nodup) {e e' : LogEntry}
-    (he : e ∈ log) (he' : e' ∈ log) (hp : e'.path = e.path) : e' = e := by
-  induction log with
-  | nil => cases he
-  | cons a log ih =>
-    rw [List.map_cons, List.nodup_cons] at hn
-    rcases List.mem_cons.mp he with h1 | h1 <;> rcases List.mem_cons.mp he' with h2 | h2
-    · rw [h1, h2]
-    · exfalso; apply hn.1; rw [← h1, ← hp]; exact List.mem_map.mpr ⟨_, h2, rfl⟩
-    · exfalso; apply hn.1; rw [← h2, hp]; exact List.mem_map.mpr ⟨_, h1, rfl⟩
-    · exact ih hn.2 h1 h2
-
 /-- Exactly once, unless the enclosing object was nulled: for every legitimate position (`Position`: the root, or an
 object reached from a field of a position) whose place in the response's data holds an OBJECT (i.e. no failure nulled
 it or an ancestor), EVERY selected field of that position (every group of its merged selection whose field the runtime
